@@ -55,6 +55,7 @@ type onotice struct {
 }
 
 type obsOut struct {
+	Op   string    `json:"op"`
 	Add  *onotice  `json:"add,omitempty"`
 	Err  bool      `json:"err,omitempty"`
 	Poll []onotice `json:"poll,omitempty"`
@@ -74,22 +75,40 @@ func coqOptZ(z *int64) string {
 	}
 	return "(Some " + vh.CoqZ(*z) + ")"
 }
-func coqBytesList(l []string) string {
+func coqBytesList(l []string, f func(string) string) string {
 	items := make([]string, len(l))
 	for i, s := range l {
-		items[i] = vh.CoqBytes(s)
+		items[i] = f(s)
 	}
 	return vh.CoqList(items)
 }
+
+// string literals are slow to parse in Coq: the model names the valid types (Notices.ty) and the generator's keys (Notices.ky)
+func coqType(t string) string {
+	for i, v := range validTypes {
+		if v == t {
+			return fmt.Sprintf("(ty %d)", i)
+		}
+	}
+	return vh.CoqBytes(t)
+}
+func coqKey(k string) string {
+	for i, v := range genKeys {
+		if v == k {
+			return fmt.Sprintf("(ky %d)", i)
+		}
+	}
+	return vh.CoqBytes(k)
+}
 func coqFilter(f filterIn) string {
-	return "(mkF " + coqOptN(f.User) + " " + coqBytesList(f.Types) + " " + coqBytesList(f.Keys) + " " + coqOptZ(f.After) + ")"
+	return "(mkF " + coqOptN(f.User) + " " + coqBytesList(f.Types, coqType) + " " + coqBytesList(f.Keys, coqKey) + " " + coqOptZ(f.After) + ")"
 }
 func coqAdd(a *addIn) string {
-	return "(mkA " + vh.CoqZ(a.Clock) + " " + coqOptN(a.User) + " " + vh.CoqBytes(a.Type) + " " + vh.CoqBytes(a.Key) + " " +
+	return "(mkA " + vh.CoqZ(a.Clock) + " " + coqOptN(a.User) + " " + coqType(a.Type) + " " + coqKey(a.Key) + " " +
 		vh.CoqZ(a.RA) + " " + coqOptZ(a.Time) + ")"
 }
 func coqONotice(o onotice) string {
-	return "(mkO " + vh.CoqN(o.ID) + " " + coqOptN(o.User) + " " + vh.CoqBytes(o.Type) + " " + vh.CoqBytes(o.Key) + " " +
+	return "(mkO " + vh.CoqN(o.ID) + " " + coqOptN(o.User) + " " + coqType(o.Type) + " " + coqKey(o.Key) + " " +
 		vh.CoqZ(o.LR) + " " + vh.CoqZ(o.LastOcc) + " " + vh.CoqN(o.Occ) + ")"
 }
 
@@ -169,7 +188,7 @@ func exec(h in) vh.Out {
 			restore()
 			if err != nil {
 				tags["add-error"] = true
-				observed = append(observed, obsOut{Err: true})
+				observed = append(observed, obsOut{Op: "add", Err: true})
 				coqObs = append(coqObs, "BAdd None")
 				continue
 			}
@@ -186,7 +205,7 @@ func exec(h in) vh.Out {
 				}
 			}
 			seenIDs[o.ID] = o.LR
-			observed = append(observed, obsOut{Add: &o})
+			observed = append(observed, obsOut{Op: "add", Add: &o})
 			coqObs = append(coqObs, "BAdd (Some "+coqONotice(o)+")")
 		case op.Poll != nil:
 			i := *op.Poll
@@ -220,7 +239,7 @@ func exec(h in) vh.Out {
 			if len(out) > 1 {
 				tags["poll-multi"] = true
 			}
-			observed = append(observed, obsOut{Poll: out})
+			observed = append(observed, obsOut{Op: "poll", Poll: out})
 			coqObs = append(coqObs, "BPoll "+vh.CoqList(items))
 		default:
 			panic("empty op")
@@ -283,9 +302,7 @@ func genFilter(r *vh.Rand) filterIn {
 			f.Keys = append(f.Keys, r.Pick(genKeys))
 		}
 	}
-	if r.Chance(1, 6) {
-		f.After = i64(int64(r.Range(-3, 6)) * []int64{1, 1000000000}[r.Intn(2)])
-	}
+	// After stays unset: a client starts without a cursor (a cursor is only ever a last-repeated time it received)
 	return f
 }
 
@@ -412,7 +429,7 @@ func enumHistories(maxLen int) []in {
 }
 
 func gen(r *vh.Rand, tier string, n int) []in {
-	maxLen := 4
+	maxLen := 3
 	if tier == "thorough" {
 		maxLen = 5
 	}
